@@ -486,13 +486,13 @@ def c11_5(ck, prog):
             r.ok('get_buffer:never-a-zero-byte-read')
 
 
-def c11_8(ck, prog):
+def c11_8(ck, prog, rid='C11.8'):
     """The errno predicates the I/O paths branch on test the errno they are named after."""
     def strip(e):
         while e is not None and e.get('k') in ('paren', 'cast'):
             e = e['e']
         return e
-    r = ck.rule('C11.8', 'each errno predicate _dbus_get_is_errno_<name> compares its argument for equality with the '
+    r = ck.rule(rid, 'each errno predicate _dbus_get_is_errno_<name> compares its argument for equality with the '
                 'errno constant(s) it is named after and with nothing else', 'TAB',
                 breaks='the I/O loops take the wrong branch on a system-call failure: a write interrupted by a signal '
                 'is treated as a broken pipe (the connection is dropped in the middle of a message), or a peer that '
